@@ -6,22 +6,37 @@ intensity-weighted centroid, maximum voxel and bounding box in exact arithmetic
 (distinct integer intensities).  Invariants checked at a hook after every
 peaksearch+mergelast: label partition of the current frame = restriction of the
 3-D components of the frames seen so far; ledger written + open = seen.
+
+Generator class is stratified by the case index (every class is guaranteed); shape, number of frames, threshold,
+pixel dtype, omega start/step, the labelling route (peaksearch or labelpeaks + measurepeaks(blim=...)) and the use of
+output2dpeaks inside the loop are drawn from the case's own rng(seed, "C12", idx), so all combinations can occur.
+The low-level kernels blobproperties / bloboverlaps / blob_moments are also driven directly on arbitrary (not
+necessarily connected, arbitrarily numbered) label images with an exact integer reference and a harness union-find.
 """
 import io
+import os
 import numpy as np
 from scipy import ndimage
 from .. import imgs
 from ..common import rng
 
-TECHNIQUE = ("runtime history monitor on labelimage.peaksearch/mergelast/finalise: per-frame invariant hook (label partition vs "
-             "3-D components of frames seen so far; conservation ledger written + open = seen) and final bijection between .flt "
-             "rows and 3-D connected components with exact moments")
-LEVEL_TEXT = ("Exploration: stacks of 1..40 frames, 4x4..128x128, empty frames, ellipsoidal blobs, speckle, blobs that fork and join, "
-              "two blobs on one frame linked only through the previous frame, chains over three frames, both omega-step signs; each "
-              "written peak is matched through its unique maximum voxel to a reference component and count/sum/centroid/max/bounding "
-              "box compared; totals conserved after every frame.")
+TECHNIQUE = ("runtime history monitor on labelimage.peaksearch/measurepeaks/output2dpeaks/mergelast/finalise: per-frame invariant "
+             "hook (label partition vs 3-D components of frames seen so far; conservation ledger written + open = seen) and final "
+             "bijection between .flt rows and 3-D connected components with exact moments; the same oracle on the files written by "
+             "scripts/peaksearch.py (single-thread and threaded drivers, several thresholds per run); exact reference model "
+             "(integer sums, harness union-find) on direct calls of blobproperties / bloboverlaps / blob_moments")
+LEVEL_TEXT = ("Exploration: stacks of 1..40 frames, 2x7..128x128, empty frames, ellipsoidal blobs, speckle, blobs that fork and join, "
+              "two blobs on one frame linked only through the previous frame, chains over three frames (every class on shapes and "
+              "frame counts drawn independently), float32/float64/int32/uint16 pixels, omega starts and steps incl. values float32 "
+              "cannot represent (0.1, 0.05, 0.3 near 359 deg) and both signs; each written peak is matched through its unique maximum "
+              "voxel to a reference component and count/sum/centroid/max/bounding box compared; totals conserved after every frame; "
+              "2-D peaks written by output2dpeaks inside the loop are compared with the 2-D components of the frame.")
 LEVEL_NOTE = ("Trusts scipy.ndimage.label with the stated 3-D structure (cross-checked per frame against the C11 oracle) and exact "
-              "integer arithmetic of the harness; the text file carries 4 decimals.")
+              "integer arithmetic of the harness; the text file carries 4 decimals; blobproperties receives omega as a C float, so "
+              "omega columns are compared within the float32 rounding of the frame angle plus the print rounding. The written "
+              "widths/covariances (sigs..covfo), sum_intensity^2, dety/detz, onfirst/onlast and spot3d_id are not named by the "
+              "statement and are not decided. Components whose pixels are all <= 0 (negative threshold) are generated in a "
+              "separate class with distinct values (the pinned tree wrote IMax_int 0 at (0,0) for them; repaired in /repo).")
 
 RULE = ("a case = one frame stack (shape, nframes, generator class, threshold, omega step); non-trivial = some 3-D component spans "
         ">= 2 frames and some frame holds >= 2 blobs; distinct = (shape, nframes, class, hash of volume)")
@@ -29,6 +44,21 @@ RULE = ("a case = one frame stack (shape, nframes, generator class, threshold, o
 STRUCT3 = np.zeros((3, 3, 3), int)
 STRUCT3[1, :, :] = 1
 STRUCT3[0, 1, 1] = STRUCT3[2, 1, 1] = 1
+
+F32 = 2.0 ** -24        # relative rounding error of double -> float32 (round to nearest)
+
+
+class LibraryRaised(Exception):
+    pass
+
+
+def lib(fn, *a, **kw):
+    """call into the code under test: an exception on a valid frame history means no peaks are written for it, which is
+    reported as a violation (not as a harness problem)"""
+    try:
+        return fn(*a, **kw)
+    except Exception as e:
+        raise LibraryRaised("%s raised %s: %s" % (getattr(fn, "__name__", fn), type(e).__name__, e))
 
 
 def gen_volume(r, nfr, shape, cls):
@@ -77,6 +107,36 @@ def gen_volume(r, nfr, shape, cls):
 
 CLASSES = ["ellipsoids", "speckle", "mixed", "linked-through-previous", "chain", "forkjoin", "empty-frames", "mixed",
            "ellipsoids", "full"]
+SHAPES = [(4, 4), (5, 9), (8, 8), (16, 12), (32, 32), (33, 17), (64, 64), (128, 128), (2, 7), (7, 2), (3, 40), (40, 3)]
+NFRAMES = [1, 2, 3, 5, 8, 13, 21, 40]
+# minimum (nframes, ns, nf) for the structure of a class to exist (gen_volume guards)
+NEEDS = {"linked-through-previous": (2, 3, 5), "chain": (3, 1, 5), "forkjoin": (3, 1, 4)}
+OM_STEPS = [0.25, 0.5, 1.0, -0.5, -1.0, 0.1, 0.05, -0.1, 0.3]
+OM_STARTS = [0.0, -10.0, 37.5, 359.0, 123.456, -179.95]
+
+
+def draw_dims(r, cls, shapes=SHAPES, nframes=NFRAMES, cap=200000):
+    need = NEEDS.get(cls, (1, 1, 1))
+    ok_shapes = [s for s in shapes if s[0] >= need[1] and s[1] >= need[2]]
+    ok_nfr = [n for n in nframes if n >= need[0]]
+    shape = ok_shapes[int(r.integers(len(ok_shapes)))]
+    nfr = int(ok_nfr[int(r.integers(len(ok_nfr)))])
+    if shape[0] * shape[1] * nfr > cap:
+        nfr = max(need[0], cap // (shape[0] * shape[1]))
+    return shape, nfr
+
+
+def draw_intensities(r, vol, thr, dtype):
+    """distinct integer intensities above thr on vol (unique maximum voxel per component, exact sums), values <= thr elsewhere"""
+    nvox = vol.size
+    top = (65535 - int(thr) - 1) if dtype == "uint16" else (2 ** 20 - 200)
+    assert nvox <= top
+    vals = r.permutation(top)[:nvox] + int(thr) + 1
+    lo = int(thr) - r.integers(0, 3, vol.shape)
+    if dtype == "uint16":
+        lo = np.maximum(lo, 0)
+    inten = np.where(vol, vals.reshape(vol.shape), lo)
+    return inten.astype({"float32": np.float32, "float64": np.float64, "int32": np.int32, "uint16": np.uint16}[dtype])
 
 
 def ref_components(vol, inten, omegas):
@@ -106,13 +166,18 @@ def ref_components(vol, inten, omegas):
 
 
 def compare_flt(run, V, text, vol, inten, omegas, comps):
-    """.flt text (as written by labelimage) vs the reference 3-D components"""
-    # ---- final: rows <-> components
+    """.flt text (as written by labelimage) vs the reference 3-D components.
+
+    Tolerances (derived): columns are printed with %.4f -> 0.5e-4 print rounding (0.51e-4 used).  Pixel sums are
+    integers < 2^53 and exact.  Omega reaches blobproperties as a C float: every frame angle is perturbed by at most
+    2^-24 |omega_k| (round to nearest), so an intensity-weighted mean of frame angles (positive weights) and the
+    min / max / max-pixel angle move by at most 2^-24 max|omega|; the double accumulation adds < 1e-9 relative."""
     rows = [l.split() for l in text.splitlines() if l.strip() and not l.startswith("#")]
     titles = text.splitlines()[0].lstrip("#").split()
     col = {t: i for i, t in enumerate(titles)}
     bykey = {c["key"]: (cid, c) for cid, c in comps.items()}
-    kidx = {float(o): k for k, o in enumerate(omegas)}
+    omegas = np.asarray(omegas, float)
+    otol = 0.51e-4 + F32 * float(np.abs(omegas).max()) * 1.01
     used = set()
     run.count("peaks_written", len(rows))
     run.count("components_expected", len(comps))
@@ -123,9 +188,11 @@ def compare_flt(run, V, text, vol, inten, omegas, comps):
         g = lambda t: float(v[col[t]])
         tp += int(g("Number_of_pixels"))
         tI += g("sum_intensity")
-        key = (kidx.get(g("IMax_o")), int(g("IMax_s")), int(g("IMax_f")))
+        # frame of the maximum voxel: nearest frame angle (angles are >= 0.05 apart, otol < 1e-4)
+        kf = int(np.argmin(np.abs(omegas - g("IMax_o"))))
+        key = (kf if abs(omegas[kf] - g("IMax_o")) <= otol else None, int(g("IMax_s")), int(g("IMax_f")))
         if key not in bykey:
-            V("final:unknown-peak", "written peak with max voxel %r matches no component" % (key,))
+            V("final:unknown-peak", "written peak with max voxel %r (IMax_o %r) matches no component" % (key, g("IMax_o")))
             continue
         cid, c = bykey[key]
         if cid in used:
@@ -140,13 +207,15 @@ def compare_flt(run, V, text, vol, inten, omegas, comps):
             bad.append("sum_intensity %r != %d" % (g("sum_intensity"), c["sumI"]))
         if abs(g("avg_intensity") - c["sumI"] / c["npix"]) > 1e-4 * 1.01:
             bad.append("avg_intensity")
-        for t, w in (("sc", c["s"]), ("fc", c["f"]), ("s_raw", c["s"]), ("f_raw", c["f"]), ("omega", c["o"])):
+        for t, w in (("sc", c["s"]), ("fc", c["f"]), ("s_raw", c["s"]), ("f_raw", c["f"])):
             if abs(g(t) - w) > 0.51e-4 + 1e-9 * abs(w):
                 bad.append("%s %r != %r" % (t, g(t), w))
+        if abs(g("omega") - c["o"]) > otol + 1e-9 * abs(c["o"]):
+            bad.append("omega %r != %r" % (g("omega"), c["o"]))
         if g("IMax_int") != c["maxI"]:
             bad.append("IMax_int %r != %d" % (g("IMax_int"), c["maxI"]))
         bb = (g("Min_s"), g("Max_s"), g("Min_f"), g("Max_f"), g("Min_o"), g("Max_o"))
-        if any(abs(a - b) > 0.51e-4 for a, b in zip(bb, c["bb"])):
+        if any(abs(a - b) > (0.51e-4 if q < 4 else otol) for q, (a, b) in enumerate(zip(bb, c["bb"]))):
             bad.append("bounding box %r != %r" % (bb, c["bb"]))
         if bad:
             V("final:properties", "peak of component with max voxel %r: %s" % (key, "; ".join(bad[:3])))
@@ -159,32 +228,74 @@ def compare_flt(run, V, text, vol, inten, omegas, comps):
     return rows, tp
 
 
+def compare_2d(run, V, text, l2, n2, frame, k):
+    """records written by output2dpeaks for one frame vs the 2-D components of that frame.
+    Format is '%d' + 9 x '%f' (6 decimals): print rounding 0.5e-6 (0.51e-6 used) + 1e-9 relative for the double
+    division; pixel count, IMax are integers."""
+    rows = [l.split() for l in text.splitlines() if l.strip() and not l.startswith("#")]
+    run.count("spt_2d_records", len(rows))
+    if len(rows) != n2:
+        V("2d:count", "frame %d: output2dpeaks wrote %d records, frame has %d blobs" % (k, len(rows), n2), frame=k)
+        return
+    I = frame.astype(np.int64)
+    lf, If = l2.ravel(), I.ravel()
+    ii, jj = np.indices(l2.shape)
+    bc = lambda w: np.bincount(lf, weights=w, minlength=n2 + 1)[1:]        # exact: integer sums far below 2^53
+    npix, tot, si, fi = bc(None), bc(If.astype(float)), bc((ii.ravel() * If).astype(float)), bc((jj.ravel() * If).astype(float))
+    mx = ndimage.maximum(I, l2, index=np.arange(1, n2 + 1)).astype(np.int64)
+    bymax = {int(m): b for b, m in enumerate(mx)}
+    seen = set()
+    for v in rows:
+        x = [float(t) for t in v]
+        b = bymax.get(int(x[9])) if x[9] == int(x[9]) else None
+        if b is None:
+            V("2d:unknown-peak", "frame %d: record with IMax_int %r matches no blob maximum" % (k, x[9]), frame=k)
+            continue
+        if b in seen:
+            V("2d:duplicate-peak", "frame %d: blob written twice" % k, frame=k)
+            continue
+        seen.add(b)
+        want = (float(npix[b]), tot[b] / npix[b], si[b] / tot[b], fi[b] / tot[b], si[b] / tot[b], fi[b] / tot[b])
+        bad = [q for q in range(6) if abs(x[q] - want[q]) > 0.51e-6 + 1e-9 * abs(want[q])]
+        if bad:
+            V("2d:properties", "frame %d blob with max %d: columns %r differ: wrote %r, component has npix/avg/s/f/sc/fc %r"
+              % (k, int(x[9]), bad, x[:6], want), frame=k)
+
+
 def one_case(run, seed, idx, mods):
+    try:
+        _one_case(run, seed, idx, mods)
+    except LibraryRaised as e:
+        run.violation("library-exception", str(e), dict(index=idx))
+
+
+def _one_case(run, seed, idx, mods):
     labelimage, columnfile, cImageD11 = mods
     r = rng(seed, "C12", idx)
-    shapes = [(4, 4), (5, 9), (8, 8), (16, 12), (32, 32), (33, 17), (64, 64), (128, 128), (2, 7), (7, 2)]
-    shape = shapes[idx % len(shapes)]
-    nfr = int([1, 2, 3, 5, 8, 13, 21, 40][idx % 8])
-    if shape[0] * shape[1] * nfr > 200000:
-        nfr = max(1, 200000 // (shape[0] * shape[1]))
-    cls = CLASSES[(idx // 2) % len(CLASSES)]
+    cls = CLASSES[idx % len(CLASSES)]
+    shape, nfr = draw_dims(r, cls)
     vol = gen_volume(r, nfr, shape, cls)
     thr = float(r.choice([0.0, 5.0, 100.0]))
-    # distinct integer intensities above the threshold (< 2^20), values <= threshold elsewhere
-    nvox = vol.size
-    vals = (r.permutation(nvox)[:nvox] % (2 ** 20 - 200)) + int(thr) + 1
-    if nvox < 2 ** 20 - 200:
-        vals = r.permutation(2 ** 20 - 200)[:nvox] + int(thr) + 1
-    inten = np.where(vol, vals.reshape(vol.shape), int(thr) - (r.integers(0, 3, vol.shape))).astype(np.float32)
-    step = float(r.choice([0.25, 0.5, 1.0, -0.5, -1.0]))
-    om0 = float(r.choice([0.0, -10.0, 37.5]))
+    dtype = str(r.choice(["float32", "float32", "int32", "uint16", "float64"]))
+    if dtype == "uint16" and vol.size > 65000:
+        dtype = "int32"
+    inten = draw_intensities(r, vol, thr, dtype)
+    assert ((inten > thr) == vol).all()
+    step = float(OM_STEPS[int(r.integers(len(OM_STEPS)))])
+    om0 = float(OM_STARTS[int(r.integers(len(OM_STARTS)))])
     omegas = om0 + step * np.arange(nfr)
-    desc = dict(index=idx, shape=shape, nframes=nfr, cls=cls, threshold=thr, omega_step=step)
+    if np.any(omegas != omegas.astype(np.float32)):
+        run.count("stacks_with_non_float32_omega")
+    route = "measurepeaks(blim)" if r.random() < 0.25 else "peaksearch"
+    with2d = bool(r.random() < 0.5)
+    desc = dict(index=idx, shape=shape, nframes=nfr, cls=cls, threshold=thr, omega_step=step, omega_start=om0, dtype=dtype,
+                route2d=route, output2dpeaks=with2d)
     lab3, comps = ref_components(vol, inten, omegas)
     spans = any(c["bb"][4] != c["bb"][5] for c in comps.values())
     multi = any(ndimage.label(vol[k], structure=imgs.S8)[1] >= 2 for k in range(nfr))
     run.case((shape, nfr, cls, hash(vol.tobytes())), nontrivial=(spans and multi),
              sample=dict(desc, components=len(comps), voxels=int(vol.sum())))
+    run.count("stacks_dtype_" + dtype)
 
     def V(key, what, **kw):
         run.violation(key, what, dict(desc, **kw))
@@ -198,17 +309,32 @@ def one_case(run, seed, idx, mods):
     seen_I = 0
     pos = 0
     for k in range(nfr):
-        lio.peaksearch(inten[k], thr, float(omegas[k]))
-        # 2-D labelling of this frame
         l2, n2 = ndimage.label(vol[k], structure=imgs.S8)
-        if lio.npk != n2 or not np.array_equal(imgs.canon(lio.blim), imgs.canon(l2)):
-            V("frame:2d-labels", "frame %d: 2-D labels are not the 8-connected components" % k, frame=k)
-        lio.mergelast()
+        if route == "peaksearch":
+            lib(lio.peaksearch, inten[k], thr, float(omegas[k]))
+            # 2-D labelling of this frame
+            if lio.npk != n2 or not np.array_equal(imgs.canon(lio.blim), imgs.canon(l2)):
+                V("frame:2d-labels", "frame %d: 2-D labels are not the 8-connected components" % k, frame=k)
+        else:
+            # the caller supplies the label image (8-connected components, arbitrary numbering)
+            perm = np.concatenate([[0], r.permutation(n2) + 1]).astype(np.int32)
+            lio.threshold = thr
+            lib(lio.measurepeaks, inten[k], float(omegas[k]), blim=perm[l2].astype(np.int32))
+            run.count("frames_with_supplied_labels")
+        if with2d and lio.npk > 0:          # as peaksearcher.peaksearch does
+            p2 = len(spt.getvalue())
+            lib(lio.output2dpeaks, spt)
+            run.count("output2dpeaks_calls")
+            compare_2d(run, V, spt.getvalue()[p2:], l2, n2, inten[k], k)
+        lib(lio.mergelast)
         run.count("frames_processed")
         seen_pix += int(vol[k].sum())
         seen_I += int(inten[k][vol[k]].astype(np.int64).sum())
         # ---- hook (i): partition of the current frame (now in lastbl) == restriction of components of frames 0..k
         labk, _ = ndimage.label(vol[:k + 1], structure=STRUCT3)
+        if len(np.setdiff1d(np.unique(labk[k]), [0])) < n2:
+            run.count("frames_two_blobs_linked_through_previous")
+            run.count("linked_through_previous:" + cls)
         if not np.array_equal(imgs.canon(lio.lastbl), imgs.canon(labk[k])):
             V("hook:partition", "after frame %d the labels of the current frame are not the restriction of the 3-D components "
               "of the frames seen so far (%d labels vs %d)" % (k, len(np.unique(lio.lastbl)) - 1, len(np.unique(labk[k])) - 1),
@@ -234,11 +360,11 @@ def one_case(run, seed, idx, mods):
             V("hook:ledger", "after frame %d: written %d + open %g pixels != seen %d (intensity %.4f + %.4f vs %d)"
               % (k, written_pix, open_pix, seen_pix, written_I, open_I, seen_I), frame=k)
             break
-    lio.finalise()
+    lib(lio.finalise)
     rows, tp = compare_flt(run, V, out.getvalue(), vol, inten, omegas, comps)
     # the text parses back with columnfile to the same numbers
     if rows and idx % 5 == 0:
-        import os, tempfile
+        import tempfile
         from ..common import WORK
         os.makedirs(os.path.join(WORK, "tmp"), exist_ok=True)
         fd, fn = tempfile.mkstemp(suffix=".flt", dir=os.path.join(WORK, "tmp"))
@@ -254,23 +380,209 @@ def one_case(run, seed, idx, mods):
             os.unlink(fn)
 
 
+# ------------------------------------------------------------------------------------------------------------------
+# direct kernel route: blobproperties / bloboverlaps / blob_moments on arbitrary label images
+
+def random_labels(r, shape, n):
+    """label image with labels 0..n: arbitrary numbering, blobs need not be connected, every label 1..n used"""
+    if n == 0:
+        return np.zeros(shape, np.int32)
+    mode = int(r.integers(3))
+    if mode == 0:       # pure noise
+        lab = r.integers(0, n + 1, shape)
+    else:               # connected blobs, then randomly merged / renumbered down to n labels
+        l0, n0 = ndimage.label(r.random(shape) < float(r.choice([0.3, 0.5, 0.7])), structure=imgs.S8)
+        lab = np.concatenate([[0], r.integers(1, n + 1, n0)])[l0]
+    flat = lab.ravel()
+    where = r.permutation(flat.size)[:n]      # make sure every label occurs (n <= size)
+    flat[where] = np.arange(1, n + 1)
+    return flat.reshape(shape).astype(np.int32)
+
+
+def ref_props(c, data, labels, n, omega):
+    """exact reference for blobproperties: dict column -> float64 array (n,).  All products are integers (omega is a
+    multiple of 1/4 below 64, so omega products are multiples of 1/16) far below 2^53: double sums are exact."""
+    I = data.astype(np.int64).ravel()
+    ii, jj = np.indices(data.shape)
+    s, f, l = ii.ravel(), jj.ravel(), labels.ravel()
+    o4 = int(round(omega * 4))
+    assert o4 / 4.0 == omega
+    bc = lambda w: np.bincount(l, weights=None if w is None else w.astype(np.float64), minlength=n + 1)[1:n + 1]
+    out = {c.s_1: bc(None), c.s_I: bc(I), c.s_I2: bc(I * I), c.s_fI: bc(f * I), c.s_ffI: bc(f * f * I), c.s_sI: bc(s * I),
+           c.s_ssI: bc(s * s * I), c.s_sfI: bc(s * f * I), c.s_oI: bc(o4 * I) / 4.0, c.s_ooI: bc(o4 * o4 * I) / 16.0,
+           c.s_soI: bc(s * o4 * I) / 4.0, c.s_foI: bc(f * o4 * I) / 4.0}
+    ext = np.zeros((n, 10))
+    for b in range(1, n + 1):
+        m = l == b
+        q = int(np.argmax(np.where(m, I, -1)))
+        ext[b - 1] = (I[q], f[q], s[q], omega, f[m].min(), f[m].max(), s[m].min(), s[m].max(), omega, omega)
+    for q, name in enumerate((c.mx_I, c.mx_I_f, c.mx_I_s, c.mx_I_o, c.bb_mn_f, c.bb_mx_f, c.bb_mn_s, c.bb_mx_s, c.bb_mn_o,
+                              c.bb_mx_o)):
+        out[name] = ext[:, q]
+    return out
+
+
+SUMS = ("s_1", "s_I", "s_I2", "s_fI", "s_ffI", "s_sI", "s_ssI", "s_sfI", "s_oI", "s_ooI", "s_soI", "s_foI")
+
+
+def merge_ref(c, rows):
+    """reference merge of property rows (list of dict column -> value)"""
+    out = {}
+    for name in SUMS:
+        col = getattr(c, name)
+        if col in rows[0]:
+            out[col] = sum(rw[col] for rw in rows)
+    top = max(rows, key=lambda rw: rw[c.mx_I])
+    for col in (c.mx_I, c.mx_I_f, c.mx_I_s, c.mx_I_o):
+        out[col] = top[col]
+    for col in (c.bb_mn_f, c.bb_mn_s, c.bb_mn_o):
+        out[col] = min(rw[col] for rw in rows)
+    for col in (c.bb_mx_f, c.bb_mx_s, c.bb_mx_o):
+        out[col] = max(rw[col] for rw in rows)
+    return out
+
+
+def kernel_case(run, seed, idx, cImageD11):
+    c = cImageD11
+    r = rng(seed, "C12", "kernel", idx)
+    shape = [(2, 2), (3, 7), (8, 8), (16, 12), (31, 33), (64, 64)][int(r.integers(6))]
+    size = shape[0] * shape[1]
+    n1 = int(r.integers(0, min(size, 40) + 1)) if r.random() < 0.9 else 0
+    n2 = int(r.integers(0, min(size, 40) + 1)) if r.random() < 0.9 else 0
+    L1, L2 = random_labels(r, shape, n1), random_labels(r, shape, n2)
+    vals = r.permutation(2 ** 20)[:2 * size] + 1                      # distinct over both frames: unique maxima
+    d1, d2 = vals[:size].reshape(shape).astype(np.float32), vals[size:].reshape(shape).astype(np.float32)
+    o1 = float(r.integers(-200, 200)) / 4.0
+    o2 = o1 + float(r.choice([-1.0, -0.25, 0.25, 0.5, 1.0]))
+    desc = dict(index=idx, route="kernels", shape=shape, n1=n1, n2=n2)
+    run.case(("kernel", shape, n1, n2, hash(L1.tobytes() + L2.tobytes())), nontrivial=(n1 > 1 and n2 > 1),
+             sample=desc if idx < 2 else None)
+
+    def V(key, what):
+        run.violation("kernel:" + key, what, desc)
+
+    # only the accumulators behind the quantities the statement names are decided: pixel count, summed intensity,
+    # first moments (centroid), maximum pixel, bounding box.  Second moments (widths / covariances) are not.
+    cols = sorted({c.s_1, c.s_I, c.s_fI, c.s_sI, c.s_oI, c.mx_I, c.mx_I_f, c.mx_I_s, c.mx_I_o, c.bb_mn_f, c.bb_mx_f, c.bb_mn_s,
+                   c.bb_mx_s, c.bb_mn_o, c.bb_mx_o})
+    res, refs = [], []
+    for (d, L, n, o) in ((d1, L1, n1, o1), (d2, L2, n2, o2)):
+        if n == 0:
+            res.append(np.zeros((1, c.NPROPERTY)))      # placeholder row, npk = 0 is passed to bloboverlaps
+            refs.append({})
+            continue
+        rs = c.blobproperties(d, L, n, omega=o)
+        run.count("blobproperties_calls")
+        want = ref_props(c, d, L, n, o)
+        for col in cols:
+            if not np.array_equal(rs[:, col], want[col]):
+                b = int(np.nonzero(rs[:, col] != want[col])[0][0])
+                V("blobproperties", "column %d of blob %d is %r, exact reference %r" % (col, b + 1, rs[b, col], want[col][b]))
+                return
+        res.append(rs)
+        refs.append(want)
+    rows1 = [{col: refs[0][col][b] for col in cols} for b in range(n1)]
+    rows2 = [{col: refs[1][col][b] for col in cols} for b in range(n2)]
+    if n1 > 0 and n2 > 0:
+        # harness union-find over overlapping label pairs (nodes: ("a", label on frame 1), ("b", label on frame 2))
+        parent = {}
+
+        def find(x):
+            while parent.setdefault(x, x) != x:
+                parent[x] = parent[parent[x]]
+                x = parent[x]
+            return x
+        for a, b in set(zip(L1[(L1 > 0) & (L2 > 0)].tolist(), L2[(L1 > 0) & (L2 > 0)].tolist())):
+            parent[find(("a", a))] = find(("b", b))
+        groups = {}
+        for b in range(1, n2 + 1):
+            groups.setdefault(find(("b", b)), ([], []))[1].append(b)
+        for a in range(1, n1 + 1):
+            g = find(("a", a))
+            if g in groups:
+                groups[g][0].append(a)
+        merged_a = set(a for g in groups.values() for a in g[0])
+        L2in = L2.copy()
+        r1, r2 = res[0].copy(), res[1].copy()
+        npk = c.bloboverlaps(L1, n1, r1, L2, n2, r2, 0)
+        run.count("bloboverlaps_calls")
+        if len(groups) < n2:
+            run.count("bloboverlaps_calls_merging_current_blobs")
+        if npk != len(groups):
+            V("bloboverlaps:count", "returned %d peaks, %d groups of current-frame blobs after linking" % (npk, len(groups)))
+            return
+        want_part = np.zeros(shape, np.int64)
+        for gi, g in enumerate(groups.values()):
+            want_part[np.isin(L2in, g[1])] = gi + 1
+        u = np.unique(L2[L2in > 0])
+        if (L2[L2in == 0] != 0).any() or len(u) != npk or u[0] != 1 or u[-1] != npk or \
+                not np.array_equal(imgs.canon(L2), imgs.canon(want_part)):
+            V("bloboverlaps:relabel", "current-frame labels after the call are not the linked groups numbered 1..%d" % npk)
+            return
+        for g in groups.values():
+            ii, jj = np.nonzero(L2in == g[1][0])
+            row = r2[int(L2[ii[0], jj[0]]) - 1]
+            want = merge_ref(c, [rows2[b - 1] for b in g[1]] + [rows1[a - 1] for a in g[0]])
+            bad = [col for col in cols if row[col] != want[col]]
+            if bad:
+                V("bloboverlaps:merge", "group of current blobs %r + previous blobs %r: column %d is %r, reference %r"
+                  % (g[1][:5], g[0][:5], bad[0], row[bad[0]], want[bad[0]]))
+                return
+        for a in range(1, n1 + 1):
+            if a in merged_a:
+                if r1[a - 1, c.s_1] != 0 or r1[a - 1, c.s_I] != 0:
+                    V("bloboverlaps:not-cleared", "previous-frame blob %d was merged forward but its row still holds %g pixels"
+                      % (a, r1[a - 1, c.s_1]))
+                    return
+            elif any(r1[a - 1, col] != rows1[a - 1][col] for col in cols):
+                V("bloboverlaps:closed-peak-changed", "previous-frame blob %d overlaps nothing but its row changed" % a)
+                return
+        tot = r1[:, c.s_1].sum() + r2[:npk, c.s_1].sum(), r1[:, c.s_I].sum() + r2[:npk, c.s_I].sum()
+        if tot != (float((L1 > 0).sum() + (L2in > 0).sum()), float(d1[L1 > 0].astype(np.int64).sum() + d2[L2in > 0].astype(np.int64).sum())):
+            V("bloboverlaps:conservation", "pixels/intensity after merging %r" % (tot,))
+        res = [r1, r2[:npk]]
+    # blob_moments: avg and centroids from the sums; the sums themselves must not change
+    for rs in res:
+        rs = rs[rs[:, c.s_1] > 0]
+        if not len(rs):
+            continue
+        before = rs.copy()
+        c.blob_moments(rs)
+        run.count("blob_moments_calls")
+        if any(not np.array_equal(rs[:, col], before[:, col]) for col in cols):
+            V("blob_moments:sums-changed", "blob_moments modified an accumulator column")
+            return
+        ld = before.astype(np.longdouble)
+        # one double division (and one more for avg): relative error <= 2^-53 each; 4e-16 relative + 1e-300 used
+        for col, num, den in ((c.avg_i, c.s_I, c.s_1), (c.f_raw, c.s_fI, c.s_I), (c.s_raw, c.s_sI, c.s_I), (c.o_raw, c.s_oI, c.s_I)):
+            want = (ld[:, num] / ld[:, den]).astype(np.float64)
+            if (np.abs(rs[:, col] - want) > 4e-16 * np.abs(want) + 1e-300).any():
+                V("blob_moments:centroid", "column %d differs from sum ratio" % col)
+                return
+
+
+# ------------------------------------------------------------------------------------------------------------------
+
 def script_case(run, seed, idx):
     """the same oracle on the output of scripts/peaksearch.py run on EDF files written by the harness"""
-    import os, shutil, subprocess, tempfile
+    import shutil, subprocess, tempfile
     import fabio
     from ..common import WORK, REPO, PY
     r = rng(seed, "C12", "script", idx)
-    shape = [(16, 12), (32, 32), (40, 25)][idx % 3]
-    nfr = int([3, 6, 10][idx % 3])
     cls = ["mixed", "linked-through-previous", "chain", "forkjoin", "ellipsoids", "empty-frames"][idx % 6]
+    shape, nfr = draw_dims(r, cls, shapes=[(16, 12), (32, 32), (40, 25), (7, 64)], nframes=[3, 6, 10])
     vol = gen_volume(r, nfr, shape, cls)
     thr = float(r.choice([5.0, 100.0]))
-    vals = r.permutation(2 ** 20 - 200)[:vol.size] + int(thr) + 1
-    inten = np.where(vol, vals.reshape(vol.shape), int(thr) - r.integers(0, 3, vol.shape)).astype(np.float32)
-    step = float(r.choice([0.25, 1.0, -0.5]))
-    om0 = float(r.choice([0.0, 37.5]))
+    dtype = str(r.choice(["float32", "uint16", "int32"]))
+    inten = draw_intensities(r, vol, thr, dtype)
+    step = float(r.choice([0.25, 1.0, -0.5, 0.1, 0.3]))
+    om0 = float(r.choice([0.0, 37.5, 359.0]))
     omegas = om0 + step * np.arange(nfr)
-    desc = dict(index=idx, route="scripts/peaksearch.py", shape=shape, nframes=nfr, cls=cls, threshold=thr, omega_step=step)
+    threaded = bool(idx % 2)                       # default driver (reader + corrector + one worker thread per threshold)
+    # a second, much higher threshold in the same run (given unsorted and with a duplicate): cuts away part of every blob
+    thr2 = float(int(r.integers(200, 60000 if dtype == "uint16" else 900000))) if (idx // 2) % 2 else None
+    desc = dict(index=idx, route="scripts/peaksearch.py", shape=shape, nframes=nfr, cls=cls, threshold=thr, omega_step=step,
+                dtype=dtype, threaded=threaded, second_threshold=thr2)
     lab3, comps = ref_components(vol, inten, omegas)
     run.case(("script", shape, nfr, cls, hash(vol.tobytes())), nontrivial=len(comps) >= 2, sample=desc if idx < 2 else None)
 
@@ -282,20 +594,75 @@ def script_case(run, seed, idx):
         for k in range(nfr):
             im = fabio.edfimage.EdfImage(data=inten[k], header={"Omega": "%r" % float(omegas[k])})
             im.write(os.path.join(d, "img%04d.edf" % k))
-        from_header = bool(idx % 2)
+        from_header = bool(r.random() < 0.5)
         cmd = [PY, os.path.join(REPO, "scripts", "peaksearch.py"), "-n", "img", "-F", ".edf", "-f", "0", "-l", str(nfr - 1),
-               "-o", "pk.spt", "-t", str(thr), "-p", "Y", "--singleThread"]
+               "-o", "pk.spt", "-p", "Y"]
+        if thr2 is None:
+            cmd += ["-t", str(thr)]
+        else:
+            cmd += ["-t", str(thr2), "-t", str(thr), "-t", str(thr2)]
+        if not threaded:
+            cmd += ["--singleThread"]
         if not from_header:
-            cmd += ["--OmegaOverRide", "-T", str(om0), "-S", str(step)]
-        p = subprocess.run(cmd, cwd=d, stdout=subprocess.PIPE, stderr=subprocess.STDOUT, timeout=600)
-        run.count("peaksearch_script_runs")
-        flt = os.path.join(d, "pk_t%d.flt" % int(thr))
-        if p.returncode != 0 or not os.path.exists(flt):
-            V("failed", "scripts/peaksearch.py failed rc=%d: %s" % (p.returncode, p.stdout.decode(errors="replace")[-400:]))
+            cmd += ["--OmegaOverRide", "-T", repr(om0), "-S", repr(step)]
+        try:
+            p = subprocess.run(cmd, cwd=d, stdout=subprocess.PIPE, stderr=subprocess.STDOUT, timeout=600)
+        except subprocess.TimeoutExpired:
+            V("failed", "scripts/peaksearch.py did not finish within 600 s")
             return
-        compare_flt(run, V, open(flt).read(), vol, inten, omegas, comps)
+        run.count("peaksearch_script_runs")
+        run.count("peaksearch_script_runs_threaded" if threaded else "peaksearch_script_runs_single_thread")
+        for t in [thr] + ([thr2] if thr2 is not None else []):
+            flt = os.path.join(d, "pk_t%d.flt" % int(t))
+            if p.returncode != 0 or not os.path.exists(flt):
+                V("failed", "scripts/peaksearch.py failed rc=%d: %s" % (p.returncode, p.stdout.decode(errors="replace")[-400:]))
+                return
+            if t == thr:
+                compare_flt(run, V, open(flt).read(), vol, inten, omegas, comps)
+            else:
+                vol2 = inten > t
+                run.count("script_second_threshold_files")
+                compare_flt(run, V, open(flt).read(), vol2, inten, omegas, ref_components(vol2, inten, omegas)[1])
     finally:
         shutil.rmtree(d, ignore_errors=True)
+
+
+def negative_max_case(run, labelimage, seed=0, idx=0):
+    """blobs whose pixels are all <= 0 (negative threshold, e.g. background-subtracted data): the maximum pixel of every
+    component must still be the component's own maximum (the pinned tree wrote IMax_int 0 at (0,0); repaired in /repo)"""
+    from scipy import ndimage
+    r = rng(seed, "C12", "negmax", idx)
+    shape = (int(r.integers(3, 12)), int(r.integers(3, 12)))
+    n = shape[0] * shape[1]
+    # distinct, exactly representable, all negative
+    im = (-(r.permutation(n) + 1) * 0.25).reshape(shape).astype(np.float32)
+    thr = float(-(n // int(r.integers(2, 5))) * 0.25 - 0.125)
+    out = io.StringIO()
+    lio = labelimage.labelimage(shape, fileout=out, sptfile=io.StringIO())
+    lio.peaksearch(im, thr, 0.0)
+    lio.mergelast()
+    lio.finalise()
+    lab, nb = ndimage.label(im > thr, structure=np.ones((3, 3)))
+    t = [x for x in out.getvalue().splitlines() if x.strip()]
+    hdr = t[0].lstrip("#").split()
+    rows = [dict(zip(hdr, x.split())) for x in t[1:] if not x.startswith("#")]
+    run.count("negative_blob_images")
+    desc = dict(route="negmax", index=idx)
+    if len(rows) != nb:
+        run.violation("final:count", "all-negative image %r threshold %g: %d components, %d peaks written" % (shape, thr, nb, len(rows)), desc)
+        return
+    seen = set()
+    for row in rows:
+        s_, f_ = int(row["IMax_s"]), int(row["IMax_f"])
+        k = int(lab[s_, f_]) if (0 <= s_ < shape[0] and 0 <= f_ < shape[1]) else 0
+        comp = im[lab == k] if k else np.zeros(0)
+        run.count("negative_blobs_checked")
+        if k == 0 or k in seen or float(row["IMax_int"]) != float(comp.max()) or im[s_, f_] != comp.max():
+            run.violation("final:max-pixel-nonpositive", "all-negative image %r threshold %g: a peak is written with IMax_int %s at "
+                          "(%d,%d); the component there has maximum %s" % (shape, thr, row["IMax_int"], s_, f_,
+                                                                         comp.max() if comp.size else "none (background pixel)"), desc)
+            return
+        seen.add(k)
 
 
 def check(run, replay=None):
@@ -304,6 +671,10 @@ def check(run, replay=None):
     if replay is not None:
         if replay["case"].get("route") == "scripts/peaksearch.py":
             script_case(run, replay["seed"], replay["case"]["index"])
+        elif replay["case"].get("route") == "kernels":
+            kernel_case(run, replay["seed"], replay["case"]["index"], cImageD11)
+        elif replay["case"].get("route") == "negmax":
+            negative_max_case(run, labelimage, replay["seed"], replay["case"].get("index", 0))
         else:
             one_case(run, replay["seed"], replay["case"]["index"], mods)
         run.nontrivial.update(["replay", "replay2"])
@@ -311,11 +682,27 @@ def check(run, replay=None):
     n = 160 if run.tier == "quick" else 6000
     for idx in range(n):
         one_case(run, run.seed, idx, mods)
-    import os
+    for idx in range(300 if run.tier == "quick" else 20000):
+        kernel_case(run, run.seed, idx, cImageD11)
+    for idx in range(40 if run.tier == "quick" else 2000):
+        negative_max_case(run, labelimage, run.seed, idx)
+    run.require_counter("negative_blobs_checked", 40)
     if not os.environ.get("VERIF_ASAN_RERUN"):
-        for idx in range(4 if run.tier == "quick" else 60):
+        for idx in range(8 if run.tier == "quick" else 72):
             script_case(run, run.seed, idx)
         run.require_counter("peaksearch_script_runs", 2)
+        run.require_counter("peaksearch_script_runs_threaded", 2)
+        run.require_counter("script_second_threshold_files", 2)
     run.require_counter("frames_processed", 500)
     run.require_counter("peaks_matched", 500)
     run.require_counter("ledger_checks", 500)
+    run.require_counter("frames_two_blobs_linked_through_previous", 20)
+    run.require_counter("linked_through_previous:linked-through-previous", 5)
+    run.require_counter("stacks_with_non_float32_omega", 20)
+    run.require_counter("frames_with_supplied_labels", 50)
+    run.require_counter("output2dpeaks_calls", 100)
+    run.require_counter("spt_2d_records", 200)
+    run.require_counter("blobproperties_calls", 200)
+    run.require_counter("bloboverlaps_calls", 100)
+    run.require_counter("bloboverlaps_calls_merging_current_blobs", 20)
+    run.require_counter("blob_moments_calls", 100)
